@@ -1222,6 +1222,9 @@ pub fn replay(scenario: &str, path: &[usize]) -> Option<RunResult> {
     if scenario == super::c03x::PerType.name() {
         return Some(super::c03x::PerType.run(path[0], true));
     }
+    if scenario == (super::c03x::Capacities { id: "C03" }).name() {
+        return Some(super::c03x::Capacities { id: "C03" }.run(path[0], true));
+    }
     for tier in ["quick", "thorough"] {
         if let Some(s) = super::c03x::series(tier).into_iter().find(|s| s.name() == scenario) {
             return Some(s.run(path, true));
@@ -1239,6 +1242,7 @@ pub fn check(tier: &str) -> i32 {
         c.explore(&s);
     }
     c.cases(&super::c03x::PerType);
+    c.cases(&super::c03x::Capacities { id: "C03" });
     for s in super::c03x::series(tier) {
         c.explore(&s);
     }
